@@ -392,7 +392,7 @@ class GLOG(Fmt):
 
 class FCHKW(Fmt):
     name = "fchk"
-    space = [("natom", [2, 1, 3]), ("basis", ["sp", "+d6", "+d5", "+f10", "+f7", "SP-shell", "+g9"]), ("mo", ["restricted", "unrestricted", "rohf"]), ("command", ["SP", "FOpt", "Freq", "Scan", "Force"]),
+    space = [("natom", [2, 1, 3]), ("basis", ["sp", "+d6", "+d5", "+f10", "+f7", "SP-shell", "+g9", "+g15", "+h21", "+h11"]), ("mo", ["restricted", "unrestricted", "rohf"]), ("command", ["SP", "FOpt", "Freq", "Scan", "Force"]),
              ("matrices", ["none", "density", "density+spin", "hessian", "polarizability", "all"]), ("vectors", ["none", "mulliken", "gradient", "dipole", "quadrupole", "masses", "micopt", "all"]),
              ("energy", [True, False]), ("ecp", [False, True]), T(9)]
 
@@ -405,7 +405,7 @@ class FCHKW(Fmt):
         xyz = np.array([[0.0, 0.0, 0.25], [0.0, 1.5, -0.75], [1.25, -0.5, 0.5]])[:n]
         shells = [(0, 0, [5.5, 0.75], [0.6, 0.5], None), (0, 1, [1.25], [1.0], None), ((n - 1), 0, [0.5], [1.0], None)]
         extra = {"sp": [], "+d6": [(0, 2, [0.875], [1.0], None)], "+d5": [(0, -2, [0.875], [1.0], None)], "+f10": [((n - 1), 3, [1.125], [1.0], None)], "+f7": [((n - 1), -3, [1.125], [1.0], None)],
-                 "SP-shell": [(0, -1, [2.5, 0.625], [0.4, 0.7], [0.3, 0.8])], "+g9": [(0, -4, [1.5], [1.0], None)]}[c["basis"]]
+                 "SP-shell": [(0, -1, [2.5, 0.625], [0.4, 0.7], [0.3, 0.8])], "+g9": [(0, -4, [1.5], [1.0], None)], "+g15": [(0, 4, [1.5], [1.0], None)], "+h21": [((n - 1), 5, [1.375], [1.0], None)], "+h11": [((n - 1), -5, [1.375], [1.0], None)]}[c["basis"]]
         shells = shells + extra
         fn = wfwriters.fchk_functions(shells)
         nb = gto.nbasis(fn)
@@ -474,7 +474,7 @@ class FCHKW(Fmt):
 
 class WFNW(Fmt):
     name = "wfn"
-    space = [("natom", [2, 1, 3]), ("basis", ["sp", "+d", "+f", "+g"]), ("layout", ["by-primitive", "by-type"]), ("mo", ["restricted", "unrestricted-mospin", "restricted-mospin"]), ("exponents", ["D", "E"]),
+    space = [("natom", [2, 1, 3]), ("basis", ["sp", "+d", "+f", "+g", "+h"]), ("layout", ["by-primitive", "by-type"]), ("mo", ["restricted", "unrestricted-mospin", "restricted-mospin"]), ("exponents", ["D", "E"]),
              ("coords", ["small", "negative-touching"]), T(10)]
     container = "wfn"
 
@@ -486,9 +486,9 @@ class WFNW(Fmt):
         xyz = np.array([[0.0, 0.0, 0.25], [0.0, 1.5, -0.75], [1.25, -0.5, 0.5]])[:n]
         if c["coords"] == "negative-touching":
             xyz = xyz - np.array([10.5, 20.25, 30.125])  # F12.8 fields filled to the sign
-        shells = [(0, 0, [5.5, 0.75]), (0, 1, [1.25, 0.5]), (n - 1, 0, [0.5])] + {"sp": [], "+d": [(0, 2, [0.875, 0.375])], "+f": [(n - 1, 3, [1.125])], "+g": [(0, 4, [1.5])]}[c["basis"]]
-        start = {0: 1, 1: 2, 2: 5, 3: 11, 4: 21}
-        count = {0: 1, 1: 3, 2: 6, 3: 10, 4: 15}
+        shells = [(0, 0, [5.5, 0.75]), (0, 1, [1.25, 0.5]), (n - 1, 0, [0.5])] + {"sp": [], "+d": [(0, 2, [0.875, 0.375])], "+f": [(n - 1, 3, [1.125])], "+g": [(0, 4, [1.5])], "+h": [(n - 1, 5, [1.375])]}[c["basis"]]
+        start = {0: 1, 1: 2, 2: 5, 3: 11, 4: 21, 5: 36}
+        count = {0: 1, 1: 3, 2: 6, 3: 10, 4: 15, 5: 21}
         prims = []
         for ic, l, exps in shells:
             codes = list(range(start[l], start[l] + count[l]))
